@@ -167,10 +167,10 @@ Calls(quar, outs) ==
   ELSE {[f |-> i, acct |-> ks[j].acct, ad |-> ks[j].ad] : i \in 1..Len(outs), j \in 1..Len(ks)}
 
 Dead == {i \in 1..Len(ks) : ks[i].acct \notin exists}
-Min(S) == CHOOSE x \in S : \A y \in S : x <= y
+MinOf(S) == CHOOSE x \in S : \A y \in S : x <= y
 \* position of the recipient whose insert fails (0 = none)
 FailAt(quar, fault) ==
-  LET S == Dead \cup (IF fault > 0 THEN {fault} ELSE {}) IN IF S = {} THEN 0 ELSE Min(S)
+  LET S == Dead \cup (IF fault > 0 THEN {fault} ELSE {}) IN IF S = {} THEN 0 ELSE MinOf(S)
 
 Body(outs, fault) ==
   /\ phase = "open" /\ idx > Len(CurList) /\ ks # <<>>
@@ -217,7 +217,8 @@ FaultSet == IF Faults THEN 0..Len(ks) ELSE {0}
 Next ==
   \/ Start \/ AddRcpt \/ Login \/ Commit \/ Abort \/ End
   \/ \E acct \in DelAccts : Delete(acct)
-  \/ \E outs \in OutsSet(KAccts, IF CurMsg.quar THEN 0 ELSE cfg.nf), fault \in FaultSet : Body(outs, fault)
+  \/ (phase = "open" /\ \E outs \in OutsSet(KAccts, IF CurMsg.quar THEN 0 ELSE cfg.nf), fault \in FaultSet :
+                            Body(outs, fault))
   \/ (phase = "end" /\ ~Gen /\ UNCHANGED vars)
 
 Spec == Init /\ [][Next]_vars /\ WF_vars(Next)
